@@ -440,3 +440,29 @@ Proof.
   intros Hw. destruct (state_reuse_okb copied refreshed reset from var given); [left|now right].
   now apply given_state_run_total.
 Qed.
+
+(* ------------------------------------------------------------------ 8. predicates whose argument is one name of a fixed set *)
+(* Object.Is(kind): the LOADER accepts a set of names (a case list in newFilter), the CONSTRUCTOR picks the predicate for the name
+   (makeObjectIsFilter's switch) and leaves a nil function behind for a name it has no case for -- the closure then calls nil on
+   the first identifier it is evaluated on.  [accepted] and [dispatch] are regenerated (go2coq filterenums). *)
+Definition enum_call (dispatch : list string) (name : string) : outcome unit :=
+  if mem name dispatch then Ok tt else Panic PNilDeref.
+
+Definition enum_dispatch_okb (accepted dispatch : list string) : bool :=
+  negb (match accepted with [] => true | _ => false end) && forallb (fun n => mem n dispatch) accepted.
+
+Theorem enum_call_total accepted dispatch : enum_dispatch_okb accepted dispatch = true ->
+  forall n, In n accepted -> enum_call dispatch n = Ok tt.
+Proof.
+  unfold enum_dispatch_okb. rewrite andb_true_iff. intros [_ H] n Hn. rewrite forallb_forall in H.
+  unfold enum_call. now rewrite (H n Hn).
+Qed.
+
+(* a name the loader lets through and the constructor does not know: the run crashes, and the obligation is false *)
+Theorem enum_call_dropped_crashes :
+  enum_call ["Func"; "Var"; "Const"; "TypeName"; "Label"; "PkgName"; "Builtin"] "Nil" = Panic PNilDeref /\
+  enum_dispatch_okb ["Func"; "Var"; "Const"; "TypeName"; "Label"; "PkgName"; "Builtin"; "Nil"]
+                    ["Func"; "Var"; "Const"; "TypeName"; "Label"; "PkgName"; "Builtin"] = false /\
+  enum_dispatch_okb ["Func"; "Var"; "Const"; "TypeName"; "Label"; "PkgName"; "Builtin"; "Nil"]
+                    ["Func"; "Var"; "Const"; "TypeName"; "Label"; "PkgName"; "Builtin"; "Nil"] = true.
+Proof. vm_compute. repeat split. Qed.
